@@ -147,6 +147,8 @@ class CFG:
         if isinstance(s, (ast.With, ast.AsyncWith)):
             wexit = self._new("with_exit", None, s)
             self._edge(wexit, nxt, "next")
+            if self.exc_edges:
+                self._edge(wexit, ctx.exc, "exc")  # __exit__ itself may raise
             # exceptional leave of the body goes through __exit__ and propagates
             wexit_exc = self._new("with_exit", None, s)
             self._edge(wexit_exc, ctx.exc, "exc")
